@@ -22,6 +22,23 @@ PARSE = ("smart", "relaxed_tasklist_matching", "relaxed_autolinks")
 STRINGY = {"header_ids": "", "front_matter_delimiter": "---"}
 
 
+# witnesses of the known classes and other hand-written probes: (feature, base, document free of the feature's triggers)
+CORPUS = [
+    ("greentext", {}, "- a\nb"), ("greentext", {"footnotes": True}, "[^a]: foo\nbar\n\nx[^a]"), ("greentext", {"description_lists": True}, "t\n\n: d\nlazy"),
+    ("description_lists", {}, "a\n~ b"), ("description_lists", {}, "- x\n\n  ~\ty"),
+    ("spoiler", {}, "|_|_"), ("spoiler", {}, "![|?|]()"), ("spoiler", {"table": True}, "a|b\n-|-\nc|d"),
+    ("footnotes", {}, "[\\^*[*]]"), ("footnotes", {}, "[&#94;a] [&#x5E;b] [&Hat;c]"),
+    ("relaxed_autolinks", {}, "[[a](b)[c]](d)"), ("relaxed_autolinks", {"autolink": True}, "[[a](b)[c]](d)"),
+    ("table", {}, "a\n=\nb"), ("table", {"ignore_setext": True}, "a\n=\n\n: :"), ("autolink", {}, "ww.a.b wwwa.b http//x.y a.b/c"),
+    ("tasklist", {}, "- (x) a\n- x] b"), ("alerts", {}, "> [ !NOTE]\n> a\n\n> ![NOTE]\n> b"), ("multiline_block_quotes", {}, ">>\na\n>>\n\n> > > b"),
+    ("math_dollars", {"math_code": False}, "a `x` b\n\n```\nc\n```"), ("math_code", {"math_dollars": True}, "$x$ $$y$$\n\n``` mat h\nz\n```"),
+    ("wikilinks_title_after_pipe", {}, "[ [a|b]] [a][ [] ![ [x]]"), ("underline", {}, "_a_ *_b_* _ _c_ _"), ("superscript", {}, "a<sup>b</sup> [a]: /u\n\n[a]"),
+    ("smart", {}, "a - b . c .. d - - e"), ("header_ids", {}, "a\n\n    b\n\n<h1>c</h1>"), ("front_matter_delimiter", {}, "--\na: b\n--\n\n- -\nc"),
+    ("tagfilter", {"unsafe": True}, "&lt;script&gt; `script` \\script"), ("strikethrough", {"subscript": False}, "a - b -- c"), ("subscript", {"strikethrough": True}, "H2O ^2^"),
+    ("relaxed_tasklist_matching", {"tasklist": True}, "- (~) a\n- ~ b"),
+]
+
+
 def fval(F):
     return STRINGY.get(F, True)
 
@@ -197,6 +214,23 @@ def nontrivial(doc):
     return any(not (ch.isalnum() or ch == " ") for ch in doc)
 
 
+def replay(r):
+    """./check replay <file>: render the document with the feature off and on"""
+    case = r.get("case") or {}
+    if "feature" not in case:
+        return
+    vlib.build_harness("debug")
+    F, d, tok = case["feature"], unhx(case["doc"]).decode("utf-8"), case["base"]
+    base = {}
+    for kv in ([] if tok == "-" else tok.split(",")):
+        k, _, v = kv.partition("=")
+        base[k] = True if v == "1" and k not in STRINGY and k not in ("width", "ol_width") else (int(v) if k in ("width", "ol_width") else (v if k == "list_style" else unhx(v).decode()))
+    for label, o in (("off", base), ("on ", with_f(base, F))):
+        line = f"md html {docgen.opts_token(o)} {hx(d)}"
+        out = vlib.run_one(vlib.VH["debug"], line)
+        print(f"{F} {label}: {line}\n      -> {unhx(out[3:]).decode('utf-8', 'replace')!r}" if out.startswith("ok ") else f"{F} {label}: {line}\n      -> {out}")
+
+
 def main(tier):
     c = vlib.Check("C13", tier)
     rng = c.rng
@@ -234,8 +268,12 @@ def main(tier):
     stats = {F: {"cases": 0, "exhaustive_docs": 0, "random_docs": 0, "known": 0, "fail": 0} for F in feats}
     failures = []  # (F, doc, base, off, on)
 
-    def run_cases(cases):
-        """cases: list of (F, doc, base dict without F).  Shares the `off` render between features."""
+    counted = {"distinct_exhaustive": 0}
+
+    def run_cases(cases, exhaustive=False):
+        """cases: list of (F, doc, base dict without F).  Shares the `off` render between features.
+        Exhaustive cases are distinct by construction (each (F, base, document) is enumerated once): they are counted
+        arithmetically; the others go through Check.count (hash set) when longer than every enumerated document."""
         off_ix, lines = {}, []
         plan = []
         for F, d, b in cases:
@@ -246,10 +284,17 @@ def main(tier):
                 lines.append(f"md html {tb} {hx(d)}")
             plan.append((off_ix[key], len(lines)))
             lines.append(f"md html {docgen.opts_token(with_f(b, F))} {hx(d)}")
-        out = vlib.run_lines(vh, lines, timeout=900)
+        out = vlib.run_lines(vh, lines, timeout=1800)
         for (F, d, b), (i, j) in zip(cases, plan):
             stats[F]["cases"] += 1
-            c.count(f"{F}|{docgen.opts_token(b)}|".encode() + d.encode("utf-8", "surrogatepass"), nontrivial(d))
+            if exhaustive:
+                c.cov["evaluations"] += 1
+                if nontrivial(d):
+                    counted["distinct_exhaustive"] += 1
+            elif len(d) > 6:
+                c.count(f"{F}|{docgen.opts_token(b)}|".encode() + d.encode("utf-8", "surrogatepass"), nontrivial(d))
+            else:
+                c.cov["evaluations"] += 1
             if out[i] != out[j]:
                 failures.append((F, d, b, out[i], out[j]))
         return len(lines)
@@ -259,29 +304,32 @@ def main(tier):
     renders = 0
     sample_free = []
     n_exh = 0
-    chunks = [["".join(t) for n in range(0, 4) for t in itertools.product(ALPHABET, repeat=n)]]
+    # chunk = (documents, names of the bases it is run under)
+    chunks = [(["".join(t) for n in range(0, 4) for t in itertools.product(ALPHABET, repeat=n)], list(BASES))]
     if maxlen >= 4:
-        chunks += [[pre + "".join(t) for t in itertools.product(ALPHABET, repeat=3)] for pre in ALPHABET]
+        # length 4 on the large alphabet: under every extension only (the base with the most interactions)
+        chunks += [([pre + "".join(t) for t in itertools.product(ALPHABET, repeat=3)], ["all"]) for pre in ALPHABET]
     # second domain: longer documents over the bytes that drive block structure
     maxlen2 = 6 if tier == "thorough" else 5
-    small = [d for d in ("".join(t) for n in range(4, maxlen2 + 1) for t in itertools.product(ALPHABET2, repeat=n))]
-    chunks += [small[i:i + 60000] for i in range(0, len(small), 60000)]
-    for ci, docs in enumerate(chunks):
+    small = ["".join(t) for n in range(4, maxlen2 + 1) for t in itertools.product(ALPHABET2, repeat=n)]
+    chunks += [(small[i:i + 60000], list(BASES)) for i in range(0, len(small), 60000)]
+    for ci, (docs, bnames) in enumerate(chunks):
         n_exh += len(docs)
-        for bname, base in BASES.items():
+        for bname in bnames:
+            base = BASES[bname]
             cases = []
             for F in feats:
                 b = {k: v for k, v in base.items() if k != F}
                 tr = TRIG[F]
                 fd = [d for d in docs if not any(t in d for t in tr)]
-                stats[F]["exhaustive_docs"] += len(fd) if bname == "none" else 0
+                stats[F]["exhaustive_docs"] += len(fd) if bname == bnames[0] else 0
                 cases.extend((F, d, b) for d in fd)
                 if bname == "none" and ci == 0:
                     sample_free.extend((F, d) for d in fd[::53])
-            renders += run_cases(cases)
+            renders += run_cases(cases, exhaustive=True)
     c.cov["exhaustive"] = True
     c.cov["exhaustive_domain"] = (f"all documents of length <= {maxlen} over the {len(ALPHABET)}-byte alphabet {ALPHABET!r} and all documents of length 4..{maxlen2} over {ALPHABET2!r} ({n_exh} documents), minus those containing a trigger "
-                                  f"string of F, for each of the {len(feats)} features under the bases none / GFM / every extension and parse switch (without F); "
+                                  f"string of F, for each of the {len(feats)} features under the bases none / GFM / every extension and parse switch (without F)" + (" (length 4 on the large alphabet: under the last base only); " if maxlen >= 4 else "; ") +
                                   "the grammar documents are a random sample, not exhaustive")
 
     # ------------------------------------------------------------------ (b) grammar documents with F's triggers removed
@@ -305,6 +353,14 @@ def main(tier):
             for G in feats:
                 if G != F and not is_free(d, TRIG[G]):
                     census[F][G] = census[F].get(G, 0) + 1
+    ncorpus = 0
+    for F, b, d in CORPUS:
+        if F in TRIG and is_free(d, TRIG[F]):
+            cases.append((F, d, {k: v for k, v in b.items() if k != F}))
+            sample_free.append((F, d))
+            ncorpus += 1
+        else:
+            c.problem("spec", "spec:corpus", f"corpus document for {F} is not free of its triggers {TRIG.get(F)}: {d!r}")
     for i in range(0, len(cases), 40000):
         renders += run_cases(cases[i:i + 40000])
     c.cov["renders"] = renders
@@ -360,7 +416,7 @@ def main(tier):
         c.cov["samples"].append({"feature": F, "triggers": TRIG[F], "doc": d})
     for F, d, b in cases[:6]:
         c.cov["samples"].append({"feature": F, "doc": d, "base": docgen.opts_token(b)})
-    c.cov["input_distribution"] = {"exhaustive_documents": n_exh, "bases_exhaustive": list(BASES), "grammar_documents_per_feature": nper,
+    c.cov["input_distribution"] = {"exhaustive_documents": n_exh, "bases_exhaustive": list(BASES), "grammar_documents_per_feature": nper, "corpus": ncorpus,
                                    "grammar_constructs": docgen.feature_counts("\n".join(d for _, d, _ in cases[:3000]))}
     c.cov["partial_clauses"] = ["C13_full_statement (whole-parser inertness) is not proved: no Coq model of the block parser or of the handle_* functions; it is searched on the implementation only",
                                 "find_special_char inertness under free_of fails at the scan level for autolink (w), spoiler (single bar) and smart (single hyphen / full stop): C13_find_special_free_refuted_*; the text nodes are merged later (not modelled)",
@@ -369,8 +425,9 @@ def main(tier):
                      "no hook exposes Subject's tables or find_special_char of the compiled library: the model of the tables is tied by the translator only, not by a run-time correspondence",
                      "the trigger strings of Spec/Triggers.v are read from the options' documentation; header_ids is exercised with the empty prefix and front_matter_delimiter with ---",
                      "class C13-a is recognised on the parse tree of the run without greentext (sourcepos + list metadata), not by a model of the block parser"]
-    c.finish(rule="a case is (feature F, base option set without F, document free of F's trigger strings); evaluations count cases (two renders each, the off render shared); "
-                  "distinct by (F, base token, document bytes); non-trivial = the document contains at least one byte that is not alphanumeric or a space",
+    extra = {"distinct_nontrivial": len(c.distinct) + counted["distinct_exhaustive"], "distinct_nontrivial_exhaustive": counted["distinct_exhaustive"]}
+    c.finish(extra=extra, rule="a case is (feature F, base option set without F, document free of F's trigger strings); evaluations count cases (two renders each, the off render shared); "
+                  "distinct by (F, base token, document bytes): the enumerated cases are distinct by construction and counted as such, the generated ones are counted through a hash set and only when longer than 6 characters (so that none coincides with an enumerated one); non-trivial = the document contains at least one byte that is not alphanumeric or a space",
              trusted_base=["Coq 8.16.1 kernel (vm_compute for the finite checks over 23 features x 256 bytes x 19 arms)", "no axioms (Print Assumptions: closed for every theorem)",
                            "tools/gen_model.py recognisers of item `special` (statement grammar of Subject::new, guard grammar, arm splitter, option-read regex)",
                            "extraction (ExtrOcamlBasic only) + ocaml/d_special.ml", "harness/src (hex protocol, option token decoding)", "tools/docgen.py grammar"])
